@@ -288,7 +288,9 @@ def dayno(y, m, d):
 QUICK_YEARS = sorted(set(
     list(range(1, 6)) + list(range(96, 105)) + list(range(396, 405)) + list(range(1580, 1605)) +
     list(range(1896, 1905)) + list(range(1968, 1973)) + list(range(1996, 2005)) + list(range(2023, 2029)) +
-    list(range(2096, 2105)) + list(range(9896, 9905)) + list(range(9946, 9955)) + list(range(9995, 10000))))
+    list(range(2096, 2105)) + list(range(9896, 9905)) + list(range(9946, 9955)) + list(range(9995, 10000)) +
+    # every residue of the century years modulo 400 (0: 400/1600/2000, 100: 100/2100, 200: 200/1800, 300: 1900/9900)
+    list(range(198, 203)) + list(range(1798, 1803)) + list(range(5998, 6003))))
 
 
 def merge_ranges(rs):
